@@ -303,6 +303,9 @@ def check_c07(ctx):
     q = ctx.tier == "quick"
     # expensive / lopsided disks: compared with the recurrences and the order relations only
     extra = [(1, 1, 5, 5), (1, 1, 6, 6), (1, 1, 10, 1), (1, 1, 15, 15), (2, 1, 9, 2)]
+    # exact equalities between the costs (ties between the disk and the memory alternative of the
+    # recurrences): wd + rd = uf, wd = rd = uf, and the same with fractions
+    extra += [(2, 1, 1, 1), (3, 1, 1, 2), (2, 1, 2, 2), (10, 10, 5, 5, 10)]
     costs = ((boxes.COSTS8 + boxes.FRAC) if q else (boxes.COSTS12 + boxes.FRAC)) + extra
     # the search box shrinks for the vectors added later (one of wd/rd zero: n - 1; fractional: n - 3):
     # their finer cost granularity multiplies the distinct search states
